@@ -230,12 +230,18 @@ func main() {
 			continue
 		}
 		nviol++
+		if nviol > 8 {
+			continue
+		}
 		rp := filepath.Join(root, "replays", id+"-"+report.KeyHash(v.Key)+".json")
 		rb, _ := json.MarshalIndent(map[string]any{"property": id, "harness": cfg.Harness, "section": v.Section, "key": v.Key, "message": v.Message, "replay": v.Replay}, "", " ")
 		os.WriteFile(rp, rb, 0o644)
 		lines = append(lines, fmt.Sprintf("VIOLATION property=%s replay=%s", id, rp))
 		lines = append(lines, "  "+report.Clip(report.OneLine(v.Message), 600))
 		exit = 1
+	}
+	if nviol > 8 {
+		lines = append(lines, fmt.Sprintf("  (%d further violations of %s not listed; see the shard reports under .build/)", nviol-8, id))
 	}
 	if replay != "" {
 		for _, l := range lines {
